@@ -6,6 +6,7 @@ package sm3_test
 
 import (
 	"bytes"
+	"encoding/hex"
 	"encoding/json"
 	"fmt"
 	"hash"
@@ -377,4 +378,84 @@ func TestVerif_C04_HugeSliceVectors(t *testing.T) {
 		}
 	}
 	rec.Sample("huge-slice", map[string]interface{}{"lengths": "2^32-1, 2^32, 2^32+197 zero bytes in one slice", "shapes": "Write+Sum, SumSM3, 61-byte prefix then the rest", "source": "openssl dgst -sm3"})
+}
+
+// Blocks after which the chaining value has a word equal to 00000000 or ffffffff (2^-32 per block; found by brute force with the
+// reference compression function, tools/sm3wordsearch): a state that code using a zero word as an "uninitialised" marker, or
+// mishandling an all-ones word, confuses with a special one. Every entry is re-validated with the reference before use.
+func TestVerif_C04_StateWordCorpus(t *testing.T) {
+	rec := stats.Get("C04", "state-word-corpus")
+	rec.Rule("corpus vectors/sm3_state_words.json (64-byte blocks whose chaining value has word 0, 4 or 7 equal to 00000000 / ffffffff; searched with the reference, re-validated here) x rapid-drawn continuation: the block written whole or in two pieces, a Sum taken right after it (prefix with/without capacity), a tail of 0..200 bytes in drawn chunks, Sum again; also SumSM3 of block||tail and a second corpus block appended. Oracle: every digest equals sm3ref. Non-trivial: every case; distinct by (block, tail, chunks).")
+	t.Cleanup(stats.FlushAll)
+	b, err := os.ReadFile(filepath.Join(os.Getenv("VERIF_DIR"), "vectors", "sm3_state_words.json"))
+	if err != nil {
+		rec.Skipped("vectors/sm3_state_words.json not readable: " + err.Error())
+		return
+	}
+	var f struct {
+		Vectors []struct {
+			Block string
+			Word  int
+			Value string
+		}
+	}
+	if err := json.Unmarshal(b, &f); err != nil {
+		t.Fatal(err)
+	}
+	var blocks [][]byte
+	for _, v := range f.Vectors {
+		blk, _ := hex.DecodeString(v.Block)
+		if len(blk) != 64 {
+			continue
+		}
+		st := sm3ref.Compress(sm3ref.IV, blk)
+		if v.Word < 0 || v.Word > 7 || fmt.Sprintf("%08x", st[v.Word]) != v.Value {
+			continue // not what the corpus claims: dropped
+		}
+		blocks = append(blocks, blk)
+	}
+	if len(blocks) == 0 {
+		rec.Skipped("no valid entry in the state-word corpus")
+		return
+	}
+	rapid.Check(t, func(t *rapid.T) {
+		r := gen.Rand(t, "seed")
+		blk := blocks[gen.Uniform(t, "block", 0, len(blocks)-1)]
+		msg := append([]byte(nil), blk...)
+		if gen.Uniform(t, "second", 0, 3) == 0 {
+			msg = append(msg, blocks[gen.Uniform(t, "block2", 0, len(blocks)-1)]...)
+		}
+		head := len(msg)
+		msg = append(msg, gen.RandBytes(r, gen.Uniform(t, "tail", 0, 200))...)
+		h := sm3.New()
+		split := gen.Uniform(t, "split", 0, 64)
+		h.Write(msg[:split])
+		h.Write(msg[split:head])
+		rec.Case(stats.Hash(msg, []byte{byte(split)}), true, fmt.Sprintf("blocks:%d", head/64))
+		if rec.WantSample("corpus") {
+			rec.Sample("corpus", map[string]interface{}{"block": stats.Hex(blk), "tail_len": len(msg) - head})
+		}
+		want := sm3ref.Sum(msg[:head])
+		prefix := gen.RandBytes(r, gen.Uniform(t, "prefix", 0, 8))
+		if got := h.Sum(prefix); !bytes.Equal(got, append(append([]byte(nil), prefix...), want[:]...)) {
+			vt.Fail(t, rec, "C04:sum:digest", "Sum right after a block that leaves a %s word in the state differs from the reference\nmsg=%x\n got %x\nwant %x", "00000000/ffffffff", msg[:head], got, want)
+			return
+		}
+		for pos := head; pos < len(msg); {
+			n := gen.Uniform(t, "chunk", 1, 70)
+			if pos+n > len(msg) {
+				n = len(msg) - pos
+			}
+			h.Write(msg[pos : pos+n])
+			pos += n
+		}
+		want = sm3ref.Sum(msg)
+		if got := h.Sum(nil); !bytes.Equal(got, want[:]) {
+			vt.Fail(t, rec, "C04:sum:digest", "digest of a message whose first block leaves a special word in the state differs from the reference\nmsg=%x\n got %x\nwant %x", msg, got, want)
+			return
+		}
+		if got := sm3.SumSM3(msg); got != want {
+			vt.Fail(t, rec, "C04:oneshot", "SumSM3 of such a message differs from the reference\nmsg=%x\n got %x\nwant %x", msg, got, want)
+		}
+	})
 }
